@@ -204,7 +204,13 @@ func verifyFunctionOnce(w *World, specs *Specs, ct *Contract, inst map[string]st
 	}
 	st := &State{env: map[types.Object]Val{}, gh: map[string]Val{}}
 	f.initBigHeap(st)
-	for name := range specs.Tracked {
+	// ghost call counters: only the names this function's own contract speaks about are counted here
+	// (a callee's contract that mentions another counter gets an unconstrained one on demand, specv.go)
+	c.tracked = map[string]bool{}
+	for _, m := range reCalls.FindAllStringSubmatch(ct.text(), -1) {
+		c.tracked[m[1]] = true
+	}
+	for name := range c.tracked {
 		n := c.fresh("calls_"+name, "Int")
 		st.gh[callsKey(name)] = Val{T: n}
 		c.ghSorts[callsKey(name)] = "Int"
